@@ -7,9 +7,11 @@ import (
 	"sort"
 	"strings"
 
+	"github.com/NethermindEth/juno/blockchain"
 	"github.com/NethermindEth/juno/core"
 	"github.com/NethermindEth/juno/core/felt"
 	"github.com/NethermindEth/juno/core/pending"
+	"github.com/NethermindEth/juno/pruner"
 	"github.com/NethermindEth/juno/sync/preconfirmed"
 	"verif/harness/lib"
 )
@@ -46,6 +48,14 @@ type world struct {
 	submitted map[felt.Felt]bool // hashes put into the nodes' submitted-transactions caches
 
 	dumps []pendingDump // database pictures taken after chain operations, waiting for the model's `dump` answers
+
+	// the pruned node (pruned.go): every node shares a pruner.RetentionFloor with its state backend the
+	// way node.go wires it; prunedBelow is how far pruner.PruneUpto ran (0: never)
+	floors      []*pruner.RetentionFloor
+	floorSeeded bool         // the floors were seeded (and are re-seeded after every prune)
+	prunedBelow int          // blocks below this number are pruned
+	maxHeight   int          // the greatest height the chain ever had (how far the record probes look)
+	noCommit    map[int]bool // fault family: commitments records deleted behind the node's back
 }
 
 func newWorld(r *lib.RNG, srcNewState bool, opt lib.GenOptions) (*world, error) {
@@ -53,13 +63,16 @@ func newWorld(r *lib.RNG, srcNewState bool, opt lib.GenOptions) (*world, error) 
 	w := &world{g: g, commitments: map[felt.Felt]*core.BlockCommitments{}, classDefs: map[felt.Felt]core.ClassDefinition{},
 		classPrint: map[string]felt.Felt{}}
 	for _, ns := range []bool{false, true} {
-		bc, kv := lib.NewNode(g.Net, ns)
+		fl := &pruner.RetentionFloor{}
+		bc, kv := lib.NewNode(g.Net, ns, blockchain.WithRetentionFloor(fl))
 		n, err := newRPCNode(bc, kv, ns)
 		if err != nil {
 			return nil, err
 		}
 		w.nodes = append(w.nodes, n)
+		w.floors = append(w.floors, fl)
 	}
+	w.noCommit = map[int]bool{}
 	return w, nil
 }
 
@@ -168,6 +181,10 @@ func (w *world) next() error {
 		}
 	}
 	w.ops = append(w.ops, fmt.Sprintf("store %d %s", num, b.Block.Hash.String()))
+	delete(w.noCommit, int(num))
+	if w.height() > w.maxHeight {
+		w.maxHeight = w.height()
+	}
 	return nil
 }
 
